@@ -5,12 +5,12 @@ use bytecode::compilation_bridge::id::{MAKE_FUNCTION, RET};
 
 use crate::{
     ast::{
-        function::FunctionType, r#type::IntoType, Block, CompilationState, Compile,
+        function::FunctionType, new_err, r#type::IntoType, Block, CompilationState, Compile,
         CompiledFunctionId, CompiledItem, Dependencies, FunctionParameters, Ident, TypeLayout,
         WalkForType,
     },
     instruction,
-    parser::{Node, Parser},
+    parser::{Node, Parser, Rule},
     scope::ScopeReturnStatus,
     BytecodePathStr, VecErr,
 };
@@ -166,6 +166,15 @@ impl Parser {
             Rc::new(Self::function_parameters(parameters, true, true, true).to_err_vec()?);
 
         let body = children.next().unwrap();
+
+        if body.as_rule() == Rule::function_return_type {
+            return Err(vec![new_err(
+                body.as_span(),
+                &input.user_data().get_source_file_name(),
+                "a constructor cannot declare a return type: it always yields an instance of its class".to_owned(),
+            )]);
+        }
+
         let body = Self::block(body)?;
 
         let class_type = input
